@@ -378,7 +378,7 @@ func oracleC16(in map[string]any, r *gtfs.Realtime, canon map[string]any) ([]Vio
 			d := gm(vp, "trip")
 			if gm(d, "nyct") != nil {
 				tags["nyct-vehicle-position"] = true
-				if t := findRtTrip(r, gs(d, "tripId")); t != nil && !t.IsEntityInMessage {
+				if t := findRtTrip(r, descKey(d)); t != nil && !t.IsEntityInMessage {
 					checkDesc("vehicle position for trip "+gs(d, "tripId"), d, t)
 				}
 			}
